@@ -172,6 +172,7 @@ class App:
         self.ver = spec["ver"]
         self.log = Log()
         self.turn = 0
+        self.api = "messages"
         self.cid = "c0"
         self.V = {}  # (side, turn, idx) -> verdict
         self.fault_at = None  # set of global action-call indices that raise
@@ -272,6 +273,12 @@ class App:
         """returns (reply_message_or_None, exception_or_None, new_state)"""
         self.log.clear()
         try:
+            if self.ver == "v1" and self.api == "state":
+                # conversation carried over through the `state` object instead of resending the message list
+                r = self.app.generate(messages=[{"role": "user", "content": user_text}], state=state if state is not None else {}, options=options)
+                resp = r.response
+                msg = dict(resp[-1]) if isinstance(resp, list) and resp else {"role": "assistant", "content": resp}
+                return msg, None, r.state
             if self.ver == "v1":
                 msgs.append({"role": "user", "content": user_text})
                 if options is not None:
